@@ -557,8 +557,8 @@ fn raw_contents<const N: usize, T: Elem>(buf: &CircularBuffer<N, T>) -> String {
     if N == 0 || n > N {
         return format!("corrupt(len={})", n);
     }
-    let mut v = Vec::with_capacity(n.min(4096));
-    for i in 0..n.min(4096) {
+    let mut v = Vec::with_capacity(n.min(1 << 22));
+    for i in 0..n.min(1 << 22) {
         let p = ((st as u128 + i as u128) % (N as u128)) as usize;
         let r: &T = unsafe { (*base.add(p)).assume_init_ref() };
         v.push(r.show());
@@ -576,7 +576,7 @@ fn validity<const N: usize, T: Elem>(buf: &CircularBuffer<N, T>, extra: &mut Str
         return;
     }
     let mut seen: HashSet<u64> = HashSet::new();
-    for i in 0..n.min(4096) {
+    for i in 0..n.min(1 << 22) {
         let p = ((st as u128 + i as u128) % (N as u128)) as usize;
         let r: &T = unsafe { (*base.add(p)).assume_init_ref() };
         if let Some(id) = r.id_of() {
